@@ -56,6 +56,9 @@ def check(ctx):
     check_assembly(ctx, rule="R4-scatter-reaches-result", only=("M2", "navg", "K"))
     from ..dispatch import check_single_fields
     check_single_fields(ctx, rule="R4-scatter-reaches-result", only=("M2", "navg", "K"))
+    # ... and the result object stores it as given (no floor, clip or re-ordering applied to M2 alone inside the constructor)
+    from ..dispatch import check_result_fields_aligned
+    check_result_fields_aligned(ctx, rule="R6-result-stores-statistics-as-given")
     # "divided by the number of segments": the plan's navg is the number of starts actually averaged, on every scheduler path
     from .c10 import check_n_is_segment_count
     check_n_is_segment_count(ctx)
